@@ -38,16 +38,16 @@ METHODS = [
       caps=[("crypt_md5crypt_rn", r"cnt < 1000")], max_s=16, can_fail=False,
       extra_loops=[("crypt_md5crypt_rn", r"cnt > 16", 3, False), ("crypt_md5crypt_rn", r"cnt >>= 1", 7, False)]),
     M("sha256crypt", "crypt_sha256crypt_rn", "$5$", ["crypt-sha256.c"], ["M_SHA256", "NOT_ROUNDS"], 43,
-      caps=[("crypt_sha256crypt_rn", r"cnt < rounds"), ("crypt_sha256crypt_rn", r"result\[0\]")], max_s=20,
+      caps=[("crypt_sha256crypt_rn", r"cnt < rounds"), ("crypt_sha256crypt_rn", r"16 \+ \(size_t\) result\[0\]")], max_s=20,
       extra_loops=SHA_LOOPS("sha256", 32), can_fail=False),
     M("sha256crypt-rounds", "crypt_sha256crypt_rn", "$5$rounds=", ["crypt-sha256.c"], ["M_SHA256"], 43,
-      caps=[("crypt_sha256crypt_rn", r"cnt < rounds"), ("crypt_sha256crypt_rn", r"result\[0\]")], max_s=14,
+      caps=[("crypt_sha256crypt_rn", r"cnt < rounds"), ("crypt_sha256crypt_rn", r"16 \+ \(size_t\) result\[0\]")], max_s=14,
       extra_loops=SHA_LOOPS("sha256", 32), max_p=8),
     M("sha512crypt", "crypt_sha512crypt_rn", "$6$", ["crypt-sha512.c"], ["M_SHA512", "NOT_ROUNDS"], 86,
-      caps=[("crypt_sha512crypt_rn", r"cnt < rounds"), ("crypt_sha512crypt_rn", r"result\[0\]")], max_s=20,
+      caps=[("crypt_sha512crypt_rn", r"cnt < rounds"), ("crypt_sha512crypt_rn", r"16 \+ \(size_t\) result\[0\]")], max_s=20,
       extra_loops=SHA_LOOPS("sha512", 64), can_fail=False),
     M("sha512crypt-rounds", "crypt_sha512crypt_rn", "$6$rounds=", ["crypt-sha512.c"], ["M_SHA512"], 86,
-      caps=[("crypt_sha512crypt_rn", r"cnt < rounds"), ("crypt_sha512crypt_rn", r"result\[0\]")], max_s=14,
+      caps=[("crypt_sha512crypt_rn", r"cnt < rounds"), ("crypt_sha512crypt_rn", r"16 \+ \(size_t\) result\[0\]")], max_s=14,
       extra_loops=SHA_LOOPS("sha512", 64), max_p=8),
     M("sunmd5", "crypt_sunmd5_rn", "$md5$", ["crypt-sunmd5.c"], ["M_MD5", "NOT_ROUNDS"], 22,
       caps=[("crypt_sunmd5_rn", r"i < nrounds")], max_s=16),
